@@ -789,12 +789,61 @@ def menus() -> dict:
     return m
 
 
+# Further members of the reduced ("core") menus used for the three-field combinations of the thorough tier.
+CORE_EXTRA = {
+    'k1.type': ['FLOAT', 'COLOR_255', 'STR_MODEL', 'custom'],
+    'k1.desc': ['bslash', 'tab', 'sq', 'quote_end', 'long1000', 'long2500', 'long2500nl', 'bslash@999', 'sp@999'],
+    'k1.default': ['quote_end', 'bslash_end', 'nl', 'zero', 'long1001'],
+    'k1.disp': ['bslash_end', 'quote@999'],
+    'k1.flag': ['ro', 'rep'],
+    'k1.tagdup': ['A+notA', 'AB'],
+    'ent.desc': ['bslash_end', 'nl', 'quote@999'],
+    'ent.type': ['BASE', 'NPC'],
+    'in1.type': ['SPAWNFLAGS', 'VEC_LINE', 'custom'],
+    'out1.type': ['TARG_DEST'],
+    'in1.desc': ['empty', 'quote@999'],
+    'io.tagdup': ['in_only_tagged', 'out_A'],
+    'alias': ['alias_kv'],
+    'helper1': ['line5', 'frustum0', 'cyl7', 'lightcone4', 'appliesto', 'studio1'],
+    'helper2': ['unknown2'],
+    'res': ['multi', 'fn_quote', 'on_base'],
+    'bases': ['none', 'chain'],
+    'kvorder': ['partial'],
+    'k2': ['choices', 'choices_str'],
+    'flags': ['tagged', 'big', 'other_key'],
+    'names': ['clscase', 'iocase'],
+    'fgd': ['mapsize', 'tagmatex'],
+}
+BIN_CORE_EXTRA = {
+    'types': ['COLOR_1', 'SPAWNFLAGS', 'STR_VSCRIPT_SINGLE'],
+    'k1.flag': ['ro+rep'],
+    'k1.empty': ['disp+default'],
+    'k1.str': ['latin1', 'kvcase'],
+    'flags': ['big', 'empty'],
+    'out1.type': ['BOOL'],
+    'res': ['empty', 'fn_odd'],
+    'ent.type': ['NPC'],
+    'alias': ['alias_first', 'alias_chain'],
+    'cbase': ['ro', 'res'],
+    'shape': ['second_block', 'odd_one_out', 'no_kv'],
+}
+
+
+def with_core(menu: dict, extra: dict) -> dict:
+    out = {}
+    for f, entries in menu.items():
+        more = set(extra.get(f, ()))
+        assert more <= {lab for lab, _, _ in entries}, (f, more)
+        out[f] = [(lab, c or lab in more, mut) for lab, c, mut in entries]
+    return out
+
+
 _MENUS: dict = {}
 
 
 def get_menus() -> dict:
     if not _MENUS:
-        _MENUS.update(menus())
+        _MENUS.update(with_core(menus(), CORE_EXTRA))
     return _MENUS
 
 
@@ -986,7 +1035,7 @@ _BIN_MENUS: dict = {}
 
 def get_bin_menus() -> dict:
     if not _BIN_MENUS:
-        _BIN_MENUS.update(bin_menus())
+        _BIN_MENUS.update(with_core(bin_menus(), BIN_CORE_EXTRA))
     return _BIN_MENUS
 
 
